@@ -19,7 +19,9 @@ SPEC = dict(
     design_ref="DESIGN.md section 5 (C05)",
     quick_s=50, thorough_s=600,
     rule=("one run = one tape: stratum QUIC (1/4: real QUIC transport over simulated UDP with served / dead / wrong-peer / "
-          "first-datagrams-lost addresses and drawn loss, duplication, reordering) | TCP + stubs; strata (exact|filters, all-fail, slow worker, back-off rejoin, stalls, insecure|noise, latency), per-peer cap 1-8, FD cap "
+          "first-datagrams-lost addresses and drawn loss, duplication, reordering; half of them with hole punching: "
+          "simultaneous-connect(server) callers punching towards a target that dials the dialer at instants around the end "
+          "of the punch, dialer listening | dial-only with reuseport on | off, overlapping punches, real resource manager) | TCP + stubs; strata (exact|filters, all-fail, slow worker, back-off rejoin, stalls, insecure|noise, latency), per-peer cap 1-8, FD cap "
           "unset|1-4, two target peers with 0-8 / 0-3 addresses (TCP private/public/IPv6 with scripts succeed, refuse, black "
           "hole, accept-and-stall, reset/EOF/stall at the k-th I/O call, honest other peer, lying transport; QUIC-v1, "
           "WebTransport, WebSocket, relay stubs failing after a drawn delay or hanging; /dns4 names resolving to 0-2 "
@@ -39,6 +41,7 @@ SPEC = dict(
             "hole-punch-served-at-instant-of-target-dial", "overlapping-hole-punch-turned-away", "target-dialed-dialer",
             "outcome-ok", "outcome-dial-error", "outcome-ctx-cancelled", "outcome-ctx-deadline"],
     real=["QUIC stratum: p2p/transport/quic, quicreuse, quic-go over simnet's UDP model — instrumented",
+          "QUIC stratum: the dialing node's resource manager (real, infinite limits) — instrumented",
           "swarm: dial_sync, dial_worker, limiter, swarm_dial, dial_ranker, dial_error, back-off, conns — instrumented",
           "tcp transport dial path behind a recording wrapper, upgrader, insecure / noise, multistream, yamux — instrumented",
           "pstoremem, eventbus — instrumented", "target peers: real simhost nodes (swarm + listeners)"],
